@@ -15,6 +15,8 @@ ENGINES = [
 ]
 
 HARNESSES = {
+    'C14': [dict(name='c14_dubins', src=['C14_dubins.cpp'], flavour='asan', cflags=['-O2'])],
+    'C18': [dict(name='c18_ptc', src=['C18_ptc.cpp'], flavour='asan')],
     'C17': [dict(name='c17_simplify', src=['C17_simplify.cpp'], flavour='asan')],
     'C02': [dict(name='c02_control', src=['C02_control.cpp'], flavour='asan')],
     'C20': [dict(name='c20_repro', src=['C20_repro.cpp'], flavour='asan')],
@@ -45,6 +47,20 @@ DBE_NOTE = ('Trusted: the choice oracle (hook H1 + sampler-allocator seam) reall
             'g++/ASan build of libompl. Bounded: deviation bound D over the first N choice points, lattice samples, the listed worlds/configurations; silent beyond.')
 
 PROPERTY_META = {
+    'C14': dict(
+        deadline_quick=240, deadline_thorough=1500, engine='E3-LPE', design_ref='5/C14',
+        technique='exhaustive enumeration of a pose-pair lattice against the real Dubins / Reeds-Shepp spaces; independent six-word reference validated by forward simulation; curve traced through interpolate()',
+        level_text='From (0,0,theta1) with headings at quadrant boundaries +-{0,1e-7,1e-3} and generic ones, to a 9x9 (thorough 17x17) position grid on [-4,4]^2 x the same headings, plus '
+                   'coincident, collinear and near-degenerate targets, radii {0.5,1,2}: Dubins distance = shortest of the six canonical words; curve obeys the vehicle model (curvature, no jumps, '
+                   'motion along the heading, reversals only for Reeds-Shepp), ends at the target, has the reported length, >= Euclid; prefix law; symmetrised Dubins; Reeds-Shepp symmetric and <= Dubins.',
+        level_note=LPE_NOTE + ' Reeds-Shepp optimality has no independent reference.'),
+    'C18': dict(
+        deadline_quick=240, deadline_thorough=1500, engine='E2-HBFS', design_ref='5/C18',
+        technique='exhaustive enumeration of all operation sequences up to a depth on the real termination conditions against a reference model (virtual clock); the periodic/threaded form under the thread-schedule explorer',
+        level_text='Every sequence up to depth 6-8 over eval / predicate flips / terminate (condition and operands) for 10 condition shapes (plain, or/and nestings over shared operands, always, '
+                   'never); IterationTerminationCondition(n<=4) incl. converted copies, reset; timed conditions under an interposed virtual clock; exact-solution condition; cost convergence over all '
+                   'cost sequences of length <= 5-6 with windows 1-3 and two thresholds.',
+        level_note='Trusted: the reference models, the clock_gettime interposition. Sequential part only in this harness; terminate() from another thread and the periodic evaluation thread are explored in C19\'s schedule explorer.'),
     'C17': dict(
         deadline_quick=420, deadline_thorough=1700, engine='E1-DBE', design_ref='5/C17',
         technique='exhaustive enumeration of all short valid waypoint paths x routines x parameters x deviation-bounded answer streams of the routines\' random draws; exhaustive counts for densification; all small sets for hybridization',
